@@ -1197,4 +1197,75 @@ theorem admitClient_holds (k : Nat) (p cid : Str) (s : Server) (n conn : Nat) (k
   rw [h4] at this q4
   exact ⟨by rw [q4.clients]; exact H3.1.1, this⟩
 
+/-! ### connecting -/
+
+theorem refuseCode_congr_sv {s s' : Server} (h1 : s'.info = s.info) (h2 : s'.caps = s.caps) (h3 : s'.auth = s.auth)
+    (k' : Connect) (c : Client) : refuseCode s' k' c = refuseCode s k' c := by
+  unfold refuseCode authAllows
+  rw [h1, h2, h3]
+
+theorem EndsTakeover_congr {s s' : Server} {cid : Str} {k' : Connect} (hc : s'.clients = s.clients)
+    (ho : ∀ e, assocGet s.clients cid = some e → getObj s' e = getObj s e) (x : EndsTakeover s' cid k') :
+    EndsTakeover s cid k' := by
+  unfold EndsTakeover at x ⊢
+  refine ⟨x.1, x.2.imp (fun y => y) (fun y => ?_)⟩
+  rw [hc] at y
+  cases he : assocGet s.clients cid with
+  | none => rw [he] at y; exact y
+  | some e =>
+    rw [he] at y
+    show ((getObj s e).clean && decide ((getObj s e).ver < 5)) = true
+    rw [← ho e he]; exact y
+
+theorem connect_holds (k : Nat) (p cid : Str) (s : Server) (conn : Nat) (k' : Connect) (i : Nat) (hw : WF s)
+    (hf : conn ∉ s.connOf.map (·.1)) (h : HoldsAt s cid k p i)
+    (hne : ¬ (refuseCode s k' (parseConnect s conn k') = none ∧ EndsTakeover s cid k')) :
+    ∃ i', HoldsAt (connect s conn k').1 cid k p i' := by
+  unfold connect
+  extract_lets +onlyGivenNames c n s1
+  have w1 : WF s1 := hw.addObj c conn (parseConnect_wf s conn k') hf
+  have hil := h.lt hw
+  have ho : ∀ e, e < s.objs.length → getObj s1 e = getObj s e :=
+    fun e he => getObj_append_lt (s := s) (s' := s1) (c := c) rfl e he
+  have h1 : HoldsAt s1 cid k p i := ⟨h.1, by rw [ho i hil]; exact h.2⟩
+  have hn : n < s1.objs.length := by
+    show s.objs.length < (s.objs ++ [c]).length
+    simp
+  have hnid : (getObj s1 n).id = k'.id := by
+    rw [getObj_append_eq (s := s) (s' := s1) (c := c) rfl]; rfl
+  have hni : n ≠ i := Nat.ne_of_gt hil
+  split
+  · split
+    rename_i s2 o2 h2
+    have hs := stopClient_sv k s1 n
+    have q := (stopClient_quiet s1 n).clients
+    rw [h2] at hs q
+    exact ⟨i, h1.of_surv hs q⟩
+  · rename_i hnone
+    refine ⟨_, admitClient_holds k p cid s1 n conn k' i w1 hn hnid hni h1 (fun x => hne ⟨?_, ?_⟩)⟩
+    · rw [← refuseCode_congr_sv (s := s) (s' := s1) rfl rfl rfl]; exact hnone
+    · exact EndsTakeover_congr (s := s) (s' := s1) rfl
+        (fun e he => ho e (hw.clients_valid cid e (assocGet_mem _ _ _ he)).1) x
+
+theorem step_connect_holds (k : Nat) (p cid : Str) (s : Server) (conn : Nat) (k' : Connect) (hw : WF s)
+    (hf : conn ∉ s.connOf.map (·.1)) (h : Holds s cid k p) (hne : ¬ Ends s cid k (.connect conn k')) :
+    Holds (step s (.connect conn k')).1 cid k p := by
+  obtain ⟨i, h⟩ := h
+  obtain ⟨i', h'⟩ := connect_holds k p cid s conn k' i hw hf h (fun x => hne (Or.inl x))
+  have w' := connect_wf s conn k' hw hf
+  have hne2 : ¬ EndsRecv (connect s conn k').1 cid k conn .pingreq false := fun x => hne (Or.inr x)
+  rw [step]
+  split
+  rename_i s' o hcon
+  rw [hcon] at h' w' hne2
+  split
+  · split
+    · split
+      rename_i s2 o2 hr
+      have := recvOn_holds k p cid s' conn .pingreq false i' w' h' hne2
+      rw [hr] at this
+      exact this.holds
+    · exact h'.holds
+  · exact h'.holds
+
 end Mochi.Broker
